@@ -486,7 +486,7 @@ func runC11(t *simrt.Tape, o Opts) Outcome {
 // ---------------------------------------------------------------------------------------------
 // C12
 
-var c12Ops = []string{"New", "CreateRandom", "WithBytes", "WithBytesFunc", "Close"}
+var c12Ops = []string{"New", "CreateRandom", "WithBytes", "WithBytesFunc", "Close", "Reader"}
 
 func sweepC12(tier string) [][]uint32 {
 	var out [][]uint32
@@ -802,15 +802,86 @@ func runC12(t *simrt.Tape, o Opts) Outcome {
 			if d := securememory.InUseCounter.Count() - inuse0; d != 0 && len(viols) == 0 {
 				violate("inuse-counter/"+im.name+"/"+c12Ops[op], "%s: secret.inuse counter is off by %d afterwards", desc(), d)
 			}
-		case "Close":
+		case "Reader":
+			// the secret is consumed through its io.Reader, in one or several chunks: every Read opens and
+			// re-protects the pages; a consumer (io.ReadAll, io.Copy, ...) takes io.EOF for "all delivered,
+			// all well"
 			sec, err := im.factory.New(src)
 			if err != nil {
 				violate("create-failed/"+im.name, "%s: fault-free creation failed: %v", desc(), err)
 				return
 			}
+			chunk := (size + 1) / 2
+			if !swept {
+				chunk = []int{1 + size/4, (size + 1) / 2, size, size + 5}[t.Choose(4, "reader.chunk")]
+			}
+			rd := sec.NewReader()
+			arm()
+			var got []byte
+			var rerr error
+			buf := make([]byte, chunk)
+			for i := 0; i < 16 && rerr == nil; i++ {
+				var n int
+				n, rerr = rd.Read(buf)
+				got = append(got, buf[:n]...)
+			}
+			disarm()
+			count(st.Oracle, "reader-under-fault")
+			cleanEnd := rerr == io.EOF
+			if fired != "" && cleanEnd {
+				violate("swallowed-failure/"+im.name+"/Reader", "%s: a protection change failed while the secret was read through its Reader (chunks of %d) but the reads ended in a plain io.EOF, which every consumer takes for success", desc(), chunk)
+				return
+			}
+			if fired == "" && !cleanEnd {
+				violate("reader-failed/"+im.name, "%s: reading through the Reader failed although no fault fired: %v", desc(), rerr)
+				return
+			}
+			if cleanEnd && !bytes.Equal(got, want) {
+				violate("reader-wrong-bytes/"+im.name, "%s: the Reader delivered other bytes than the secret holds", desc())
+				return
+			}
+			if !functional(sec, "after reading through the Reader, with faults off") {
+				return
+			}
+			if cerr := sec.Close(); cerr != nil {
+				violate("close-after-failed-access/"+im.name, "%s: Close after reading through the Reader (faults off) failed: %v", desc(), cerr)
+				return
+			}
+			checkNoRemains("Reader + Close")
+			if d := securememory.InUseCounter.Count() - inuse0; d != 0 && len(viols) == 0 {
+				violate("inuse-counter/"+im.name+"/Reader", "%s: secret.inuse counter is off by %d afterwards", desc(), d)
+			}
+		case "Close":
+			fin0 := s.Finalizers()
+			sec, err := im.factory.New(src)
+			if err != nil {
+				violate("create-failed/"+im.name, "%s: fault-free creation failed: %v", desc(), err)
+				return
+			}
+			fin1 := s.Finalizers()
+			abandon := !swept && im.name == "protectedmemory" && t.Choose(3, "abandon-after-failed-close") == 1
 			arm()
 			err = sec.Close()
 			disarm()
+			if abandon && fired != "" && err != nil {
+				// the owner gives up after the failed Close and drops the secret: the collector's
+				// finalizer is then the retry, and it releases what the Close left behind
+				count(st.Oracle, "finalizer-after-failed-close")
+				for _, r := range im.spy.Regions[firstRegion:] {
+					if im.spy.ReadableSecret(r) {
+						violate("readable-after-failed-close/"+im.name, "%s: the failed Close left the secret's pages %q with the secret still in them", desc(), r.Prot)
+						return
+					}
+				}
+				sec = nil
+				s.RunFinalizers(fin0, fin1)
+				s.Idle()
+				checkNoRemains("Close, after which the abandoned secret was finalized")
+				if d := securememory.InUseCounter.Count() - inuse0; d != 0 && len(viols) == 0 {
+					violate("inuse-counter/"+im.name+"/Close", "%s: secret.inuse counter is off by %d after the failed Close and the finalizer", desc(), d)
+				}
+				return
+			}
 			count(st.Oracle, "close-under-fault")
 			if fired != "" && err == nil && im.name == "protectedmemory" {
 				// Close swallowed a failure: then everything must really be released
